@@ -205,24 +205,35 @@ Definition sp_min (w : world) (p : pod) (c : spreadc) : option Z :=
 Definition sp_ok (w : world) (p : pod) (c : spreadc) (d : string) : bool :=
   match sp_min w p c with None => true | Some mn => sp_count w p c d - mn <=? s_skew c end.
 
-(* the oracle is applied to a constraint only when every new pod it counts carries the same constraint
-   and node eligibility is decided (the pass may still leave other nodes' labels open) *)
-Definition sp_in_scope (w : world) (p : pod) (c : spreadc) : bool :=
-  forallb (fun q => negb (p_new q) || negb (sp_matches p c q) || carries q c) (w_pods w) &&
-  forallb (fun q => negb (sp_matches p c q) ||
-                    match node_of w q with Some n => negb (ambiguous p c n) | None => true end) (w_pods w).
+(* Existential-last form with per-carrier views. Let S be the new pods that carry a constraint equal to c
+   (same namespace) and sit in domain d. Whichever of them was placed last, say l, was admitted by the
+   Kubernetes rule evaluated in l's OWN view (its node-affinity / taint eligibility, its usable domains):
+   at that moment d held every bound pod and every member of S that l's view counts, and the minimum
+   can only have grown since (counts only grow; the domain universe of a non-hostname key is fixed during a
+   pass). New pods that match but do not carry the constraint may have arrived later and are therefore
+   left out of the count for d (they still count for the minimum). A carrier whose view cannot be decided
+   from the end state (a node it may or may not be eligible on) is accepted as witness. *)
+Definition sp_count_carriers (w : world) (l : pod) (c : spreadc) (d : string) : Z :=
+  Z.of_nat (length (filter (fun q =>
+    sp_matches l c q && determined w q (s_key c) d && (negb (p_new q) || carries q c) &&
+    match node_of w q with Some n => eligible l c n | None => false end) (w_pods w))).
 
-(* a later carrier placed in the same domain re-validated the skew there (counts only grow, the
-   domain universe of a non-hostname key is fixed during a pass) *)
-Definition sp_later_ok (w : world) (p : pod) (c : spreadc) (d : string) : bool :=
-  existsb (fun q => p_new q && negb (same_pod p q) && String.eqb (p_ns q) (p_ns p) &&
-                    determined w q (s_key c) d &&
-                    existsb (fun c' => spread_eqb c c' && sp_in_scope w q c' && sp_ok w q c' d) (p_spread q)) (w_pods w).
+Definition view_ambiguous (w : world) (l : pod) (c : spreadc) : bool :=
+  existsb (fun q => sp_matches l c q &&
+                    match node_of w q with Some n => ambiguous l c n | None => false end) (w_pods w).
+
+Definition sp_ok_last (w : world) (l : pod) (c : spreadc) (d : string) : bool :=
+  match sp_min w l c with None => true | Some mn => sp_count_carriers w l c d - mn <=? s_skew c end.
+
+Definition in_domain (w : world) (p l : pod) (k d : string) : bool :=
+  determined w l k d || String.eqb (p_node l) (p_node p).
+
+Definition sp_witness (w : world) (p : pod) (c : spreadc) (d : string) (l : pod) : bool :=
+  p_new l && String.eqb (p_ns l) (p_ns p) && carries l c && in_domain w p l (s_key c) d &&
+  (view_ambiguous w l c || sp_ok_last w l c d).
 
 Definition spread_c_ok (w : world) (p : pod) (c : spreadc) : bool :=
-  negb (sp_in_scope w p c) ||
-  (let F := dom_of w p (s_key c) in
-   forallb (fun d => sp_ok w p c d || sp_later_ok w p c d) F).
+  forallb (fun d => existsb (sp_witness w p c d) (w_pods w)) (dom_of w p (s_key c)).
 
 Definition spread_ok_b (w : world) : bool :=
   forallb (fun p => negb (p_new p) || forallb (spread_c_ok w p) (p_spread p)) (w_pods w).
